@@ -186,7 +186,34 @@ def real_schema(case: dict) -> Tuple[Optional[str], dict, List[str]]:
         except jsonschema.exceptions.SchemaError as e:
             fails.append("not a valid Draft 2020-12 schema: " + str(e.message)[:120])
     out["jsonOnly"] = not nonjson
+    fails += bare_predicates(v, s if case["named"] is None else list(s.values())[0], fails)
     return None, out, fails
+
+
+def bare_predicates(v: Any, body: Any, known: List[str]) -> List[str]:
+    """"for any validator *or predicate*": each predicate of the root validator is also handed to to_json_schema on its
+    own; the fragment it returns must be the one found in the validator's schema (directly, or under `allOf`)"""
+    from koda_validate.serialization import to_json_schema
+    out: List[str] = []
+    if not isinstance(body, dict):
+        return out
+    for p in list(getattr(v, "predicates", None) or []):
+        try:
+            frag = to_json_schema(p)
+        except TypeError:
+            out.append("a predicate alone is refused (TypeError) although the validator holding it got a schema")
+            continue
+        except BaseException as e:  # noqa
+            out.append(f"to_json_schema(predicate) raised {type(e).__name__} (only TypeError is allowed)")
+            continue
+        if not isinstance(frag, dict):
+            out.append("to_json_schema(predicate) did not return an object")
+            continue
+        inline = all(k in body and (body[k] is val or body[k] == val) for k, val in frag.items())
+        under = any(isinstance(a, dict) and a == frag for a in (body.get("allOf") or []))
+        if not (inline or under):
+            out.append("the schema of a predicate alone is not the fragment found in its validator's schema")
+    return out
 
 
 def find_nonjson(s: Any) -> str:
